@@ -204,6 +204,64 @@ MUTANTS = [
      "                cutout_centroid = cutout_centroid[np.newaxis, :]\n"
      "            centroid_quad[nan_mask]",
      "            centroid_quad[nan_mask]"),
+    ('C09', 'bkg_stats_deleted_before_filter', 'background/background_2d.py',
+     "        data = self._filter_grid(data)\n"
+     "        if ('background_rms_mesh' in self.__dict__\n"
+     "                or self.filter_threshold is None):\n"
+     "            self._bkg_stats = None  # delete to save memory\n"
+     "        return self._apply_units(data)\n",
+     "        if ('background_rms_mesh' in self.__dict__\n"
+     "                or self.filter_threshold is None):\n"
+     "            self._bkg_stats = None  # delete to save memory\n"
+     "        return self._apply_units(self._filter_grid(data))\n"),
+    ('C09', 'reset_results_forgets_group_results', 'psf/photometry.py',
+     "        self.fit_info = defaultdict(list)\n"
+     "        self._group_results = defaultdict(list)\n\n"
+     "    def __repr__(self):",
+     "        self.fit_info = defaultdict(list)\n\n"
+     "    def __repr__(self):"),
+    ('C09', 'aperture_setter_without_cache_reset', 'aperture/attributes.py',
+     "            value = float(value)\n\n"
+     "        # no need to reset if not already in the instance dict\n"
+     "        if self.name in instance.__dict__:\n"
+     "            self._reset_lazyproperties(instance)\n",
+     "            value = float(value)\n\n"),
+    ('C09', 'positions_setter_without_cache_reset', 'aperture/attributes.py',
+     "        value = self._validate(value)  # np.ndarray\n\n"
+     "        # no need to reset if not already in the instance dict\n"
+     "        if self.name in instance.__dict__:\n"
+     "            self._reset_lazyproperties(instance)\n",
+     "        value = self._validate(value)  # np.ndarray\n\n"),
+    ('C09', 'unnormalize_keeps_normalization_value', 'profiles/core.py',
+     "                                             * self.normalization_value)\n"
+     "        self.normalization_value = 1.0\n",
+     "                                             * self.normalization_value)\n"),
+    ('C09', 'starfinder_caches_convolved_image', 'detection/starfinder.py',
+     "        convolved_data = _filter_data(data, kernel, mode='constant',\n"
+     "                                      fill_value=0.0,\n"
+     "                                      check_normalization=False)\n",
+     "        if getattr(self, '_conv', None) is None or self._conv.shape != data.shape:\n"
+     "            self._conv = _filter_data(data, kernel, mode='constant',\n"
+     "                                      fill_value=0.0,\n"
+     "                                      check_normalization=False)\n"
+     "        convolved_data = self._conv\n"),
+    ('C09', 'grouper_dropped_after_group_id_call', 'psf/photometry.py',
+     "        grouper = self.grouper\n"
+     "        if 'group_id' in init_params.colnames:\n"
+     "            grouper = None\n",
+     "        if 'group_id' in init_params.colnames:\n"
+     "            self.grouper = None\n"
+     "        grouper = self.grouper\n"),
+    ('C09', 'ellipse_sma_written_back_to_geometry', 'isophote/ellipse.py',
+     "        # sort list of isophotes according to sma\n"
+     "        isophote_list.sort()\n",
+     "        # sort list of isophotes according to sma\n"
+     "        isophote_list.sort()\n"
+     "        self._geometry.sma = isophote_list[-1].sma\n"),
+    ('C09', 'normalize_skips_uncached_profile_error', 'profiles/core.py',
+     "            self.__dict__['profile_error'] = self.profile_error / normalization\n",
+     "            if 'profile_error' in self.__dict__:\n"
+     "                self.__dict__['profile_error'] = self.profile_error / normalization\n"),
 ]
 
 
